@@ -18,7 +18,7 @@ func checkC12(c *Ctx) {
 	sa := c.setupAnchors(ru1)
 	if handler != nil && sa != nil {
 		c.R.Fn(c.fname(handler))
-		paths, err := core.EnumPaths(handler, core.PathOpts{})
+		paths, err := c.handlerPaths(handler, sa)
 		if err != nil {
 			ru1.Undecided("paths of the CONNECT handler", c.where(handler, handler), err.Error())
 		} else {
@@ -214,11 +214,16 @@ func checkC12(c *Ctx) {
 			obj  *types.Func
 			name string
 		}{{td.subsDelete, "Subscriptions.Delete"}, {td.sessDelete, "SessionMetadatas.Delete"}} {
-			calls := core.CallsTo(td.fn, t.obj)
+			var calls []*core.Call
 			bad := ""
-			for _, cl := range calls {
-				if !td.ownID(cl.Arg(0)) {
-					bad = t.name + " in teardown is keyed by something else than the dying session's ID(): " + short(core.Term(cl.Arg(0)), 80)
+			for _, tp := range td.paths {
+				for _, pc := range tp.p.Calls() {
+					if pc.Is(t.obj) {
+						calls = append(calls, pc.Call)
+						if !td.ownID(tp.p, pc.Arg(0)) {
+							bad = t.name + " in teardown is keyed by something else than the dying session's ID(): " + short(core.Term(pc.Arg(0)), 80)
+						}
+					}
 				}
 			}
 			ru4.Check(bad == "" && len(calls) > 0, t.name+" keys in "+c.fname(td.fn), c.where(td.fn, td.fn), "session.ID()", bad)
@@ -296,8 +301,8 @@ func checkC13(c *Ctx) {
 					continue
 				}
 				w := tp.wills[0]
-				okArgs := core.Strip(w.Arg(1)) == ssa.Value(td.fn.Params[td.sessIdx])
-				if k, ok := w.Arg(2).(*ssa.Const); !ok || k.Value != nil {
+				okArgs := core.Strip(tp.p.Resolve(core.Strip(w.Arg(1)))) == ssa.Value(td.fn.Params[td.sessIdx])
+				if k, ok := tp.p.Resolve(w.Arg(2)).(*ssa.Const); !ok || k.Value != nil {
 					okArgs = false
 				}
 				if !depReaches(w.Arg(3), func(v ssa.Value) bool {
